@@ -87,7 +87,7 @@ impl<C: Suite> Model for M13<C> {
                     }
                 }
             }
-            for len in [5usize, 33] {
+            for len in [5usize, 33, 65536] {
                 v.push(St { s, k: 0, len, id: 1, base: true, dev: None });
             }
         }
@@ -123,11 +123,35 @@ impl<C: Suite> Model for M13<C> {
         }
         let (ct, _) = self.seal(st);
         let ser = Vec::<u8>::from(&ct);
-        for i in 0..ser.len() * 8 {
-            a.push(Dev::BitFlip(i));
-        }
-        for l in 0..ct.w.len() {
-            a.push(Dev::TruncW(l));
+        if st.len > 1000 {
+            // 64 KiB base: selected byte positions (header, both ends and the middle of w, offsets around 2^16)
+            let ulen = pt(&ct.u).len();
+            let ws = ser.len() - 1 - ct.w.len();
+            let we = ser.len() - 1;
+            let mut bytes: Vec<usize> = vec![0, ulen - 1, ulen, ulen + 31, ws - 1, ws, ws + 1, ws + 2, ws + 3, ws + 4, (ws + we) / 2, we - 2, we - 1, we];
+            for off in [65535usize, 65536, 65537, 32768, 16384] {
+                if ws + off < we {
+                    bytes.push(ws + off);
+                    bytes.push(ws + off - 1);
+                }
+            }
+            bytes.sort();
+            bytes.dedup();
+            for b in bytes {
+                a.push(Dev::BitFlip(b * 8));
+                a.push(Dev::BitFlip(b * 8 + 7));
+            }
+            let n = ct.w.len();
+            for l in [0, 1, n / 2, n - 17, n - 2, n - 1] {
+                a.push(Dev::TruncW(l));
+            }
+        } else {
+            for i in 0..ser.len() * 8 {
+                a.push(Dev::BitFlip(i));
+            }
+            for l in 0..ct.w.len() {
+                a.push(Dev::TruncW(l));
+            }
         }
         a.push(Dev::ExtW(0));
         a.push(Dev::ExtW(0xFF));
